@@ -25,6 +25,13 @@ def norm_msg(line):
     m = re.search(r"(?:fatal )?error: (.*)", line)
     s = m.group(1) if m else line
     s = re.sub(r"; did you mean .*", "", s)      # g++'s spelling suggestion depends on what else is in scope
+    m2 = re.match(r"[‘'`]([^’']*)[’'] was not declared in this scope", s)
+    if m2:
+        # the undeclared identifier itself identifies the defect better than the function it occurs in
+        ident = re.sub(r"\d+", "N", m2.group(1))
+        ident = re.sub(r"nsN_(inN_)?", "ns_", ident)
+        ident = re.sub(r"(ClsN_)+", "Cls_", ident)
+        return ("'%s' was not declared in this scope" % ident)[:90]
     s = re.sub(r"[‘'`][^’']*[’']", "'X'", s)
     s = re.sub(r"\[-f[\w-]+\]|\[-W[\w=-]+\]", "", s)
     s = re.sub(r"\d+", "N", s)
@@ -115,7 +122,7 @@ def attempt(b, d, opts, stage_limit="import"):
     if rc.rc != 0:
         ec = error_classes(rc.err) or ["?"]
         cx = error_context(rc.err)
-        if cx:
+        if cx and "was not declared in this scope" not in ec[0]:
             ec[0] = ec[0] + " @" + cx
         return "compile-error", ec, rc.err[:3000]
     objs.append(o1)
